@@ -633,7 +633,8 @@ theorem entry_axis {h d X pos' : K} {G sh idx' : Int} {m n i j N : Nat} {p : Boo
       | 1 => 0
       | _ => (m : K) * h)
     (hidxN : idxN = match clsOfOffset (-(exitClass m idx')) with
-      | 0 => ((floorUpTo m ((pos' + (((i : Int) * m - (j : Int) * m : Int) : K) * h) * (1 / h)) : Nat) : Int)
+      | 0 => clampIdx ((floorUpTo m ((pos' + (((i : Int) * m - (j : Int) * m : Int) : K) * h) * (1 / h)) : Nat) : Int)
+          ((m : Int) - 1)
       | 1 => 0
       | _ => (m : Int) - 1) :
     ∃ sh' : Int, (∃ w : Int, sh' = (j : Int) * m + w * N ∧ (p = false → w = 0))
@@ -719,6 +720,11 @@ theorem entry_axis {h d X pos' : K} {G sh idx' : Int} {m n i j N : Nat} {p : Boo
       have f5 : floorUpTo m (pos' * (1 / h)) < m := by
         have : ((floorUpTo m (pos' * (1 / h)) : Nat) : K) < (m : K) := lt_of_le_of_lt f1 hxm
         exact_mod_cast this
+      -- the position is strictly below the upper boundary: the clamp of the index is inactive
+      have hcl : clampIdx ((floorUpTo m (pos' * (1 / h)) : Nat) : Int) ((m : Int) - 1)
+          = ((floorUpTo m (pos' * (1 / h)) : Nat) : Int) := by
+        unfold clampIdx; rw [if_neg (by omega)]
+      rw [hcl] at hidxN
       obtain ⟨k, hk⟩ : ∃ k, k = floorUpTo m (pos' * (1 / h)) := ⟨_, rfl⟩
       rw [← hk] at f1 f4 f5 hidxN
       have hk1 : ((k : Int) : K) * h ≤ pos' := by
@@ -933,7 +939,8 @@ theorem initSt_axis0 (b : Block K) (ph : Photon K) (inDir : Nat) (a : Ax)
     (hp : pinKind inDir a = 0) (hi : idxKind inDir a = 0) :
     (initSt b ph inDir).pos.get a = ph.pos.get a - b.anchor.get a
     ∧ (initSt b ph inDir).idx.get a
-        = ((floorUpTo (b.n.get a) ((ph.pos.get a - b.anchor.get a) * b.inv.get a) : Nat) : Int) := by
+        = clampIdx ((floorUpTo (b.n.get a) ((ph.pos.get a - b.anchor.get a) * b.inv.get a) : Nat) : Int)
+            ((b.n.get a : Int) - 1) := by
   rw [initSt_pos, initSt_idx]
   unfold pinAxis startIdxAxis
   rw [hp, hi]
@@ -1715,7 +1722,13 @@ theorem start_rel {g : Geom K} {L : Layout} {field : Int × Int × Int → Cell 
     intro a
     rw [(hin a).2]
     simp only [blockOf, V3.get_of, X0]
-    congr 3; ring
+    -- the start is strictly below the upper boundary of its subgrid: the clamp is inactive
+    have hlt := (floorUpTo_cell (n := (mV L).get a) (hok.h_pos a) (hloc0 a) (hloc1 a)).2.2
+    have key : ∀ (m : Nat) (x y : K), x = y → floorUpTo m y < m →
+        clampIdx ((floorUpTo m x : Nat) : Int) ((m : Int) - 1) = ((floorUpTo m y : Nat) : Int) := by
+      intro m x y h hl; subst h; unfold clampIdx; rw [if_neg (by omega)]
+    refine key _ _ _ ?_ hlt
+    ring
   show Rel g (envOf g L field pk) L (subgridOf g L pk.pos) pk _ _
   refine ⟨V3.of (off L (subgridOf g L pk.pos)), ?_⟩
   exact
